@@ -231,7 +231,6 @@ def _all_bindings(facts, b):
 def r13_linearity(facts):
     """R13: every adjoint slot is linear-homogeneous in the incoming adjoint; the engine's delta path is linear in the seed."""
     from . import lineval as LV
-    from . import engine_rules as ER
     c = Ctx("R13", facts, "adjoint slots are linear-homogeneous in the incoming adjoint; engine delta path linear in the seed")
     bws = [b for b in facts.closures() if F.is_backward_closure(b)]
     c.floor("backward closures", len(bws), 17)
@@ -275,123 +274,14 @@ def r13_linearity(facts):
                 else:
                     c.bad(sinst, where, "slot %d is not linear in the incoming adjoint (typed N: product of two adjoint-dependent values, "
                           "an added constant, or a non-linear function of the adjoint)" % i)
-    c.floor("adjoint slots typed", n_slots, 22)
+    c.floor("adjoint slots typed", n_slots, 10)
     c.count("crate functions analysed through their bodies", len(analysed))
     c.note("functions analysed through their bodies: " + ", ".join(sorted(x.split("::")[-1] for x in analysed)))
     c.note("summaries: " + "; ".join("%s: %s" % kv for kv in LV.SUMMARY_REASONS.items()))
 
-    # ---- engine: the delta path of Array::backward
-    m = ER.PassModel(facts)
-    if not m.ok:
-        c.floor("Array::backward model", 0, 1)
-        return c
-    bw = m.bw
-    sites = [s for s in ER.invocation_sites(facts) if s[0]["def"] == bw["def"]]
-    pass_delta = None
-    if len(sites) == 1:
-        inv = sites[0][1]
-        tup = strip(inv["args"][1]) if len(inv["args"]) > 1 else None
-        third = tup["fields"][2] if tup and tup.get("k") == "Tuple" and len(tup["fields"]) == 3 else None
-        pass_delta = var_of(third) if third is not None else None
-    lvars = {}
-
-    def seedlin(e, depth=0):
-        """is e linear in the seed (given: pending deltas and closure slots are)"""
-        e = peel(e)
-        if depth > 12:
-            return False
-        k = e.get("k")
-        if k in ("VarRef", "UpvarRef"):
-            v = e["v"]
-            bnd = m.binds.get(v)
-            if bnd is None:
-                return False
-            if bnd[0] == "let":
-                return bnd[1] is not None and seedlin(bnd[1], depth + 1)
-            _, scrut, path, owner = bnd
-            n_, fld = m.slot_owner(scrut)
-            if n_ and fld == m.f_delta:
-                return True                      # pending delta: linear by the induction hypothesis
-            if var_of(scrut) == m.seedv:
-                return True                      # the seed itself
-            # loop variable over the closure's result vector (through the for-loop desugaring)
-            if sites and from_invocation(v, set()):
-                return pass_delta is not None and bool(third_is_linear)
-            return False
-        if k == "Call":
-            r = resolved(e)
-            if r in ("corgi::array::Array::flatten_to", "<corgi::array::Array as core::clone::Clone>::clone"):
-                return seedlin(e["args"][0], depth + 1)
-            if r == "corgi::array::arithmetic::<impl core::ops::arith::Add<&corgi::array::Array> for &corgi::array::Array>::add":
-                return seedlin(e["args"][0], depth + 1) and seedlin(e["args"][1], depth + 1)
-            if (r or "").startswith(CTOR_PREFIX):
-                # the default seed (ones of the root's shape): it *is* the seed of this pass
-                return True
-            return False
-        if k in ("If", "Match", "Block"):
-            if k == "If":
-                br = [e["then"], e.get("else")]
-            elif k == "Match":
-                br = [a["body"] for a in e["arms"]]
-            else:
-                br = [e.get("e")]
-            return all(b is not None and seedlin(b, depth + 1) for b in br)
-        return False
-
-    def from_invocation(v, seen):
-        """is variable v bound (through patterns / iteration) to elements of the derivative closure's result"""
-        if v in seen or len(seen) > 12:
-            return False
-        seen.add(v)
-        bnd = m.binds.get(v)
-        if bnd is None:
-            return False
-        src = bnd[1]
-        if src is None:
-            return False
-        if any(x is sites[0][1] for x in walk(src)):
-            return True
-        if bnd[0] == "let":
-            # only iterator adaptors / moves may sit between the result vector and its elements
-            inner = peel(src)
-            if inner.get("k") not in ("VarRef", "UpvarRef"):
-                return False
-        for x in walk(src):
-            if x.get("k") == "Call" and callee(x) not in (
-                    "core::iter::traits::collect::IntoIterator::into_iter", "core::iter::traits::iterator::Iterator::enumerate",
-                    "core::iter::traits::iterator::Iterator::next", "core::iter::traits::iterator::Iterator::zip",
-                    "core::slice::<impl [T]>::iter", "core::ops::deref::Deref::deref"):
-                return False
-        return any(from_invocation(x["v"], seen) for x in walk(src) if x.get("k") in ("VarRef", "UpvarRef"))
-
-    third_is_linear = False
-    if pass_delta is not None:
-        third_is_linear = True      # provisional, to break the cycle below
-        third_is_linear = seedlin({"k": "VarRef", "v": pass_delta, "ty": ""})
-    c.check(bool(third_is_linear), "engine:closure-argument", loc(bw, sites[0][1]) if sites else "-",
-            "the adjoint handed to the derivative closure is the pass's delta (pending delta, supplied seed, or default ones)",
-            "the adjoint handed to the derivative closure is not the pass's delta")
-    for n, ctx, owner, val in m.delta_sets():
-        payload = ER._some_payload(val)
-        arm = ER._arm_kind(ctx)
-        if payload is None:
-            continue
-        c.check(seedlin(payload), "engine:delta-%s" % arm, loc(bw, n),
-                "value delivered to a child's pending delta is a sum of reduced closure slots / pending deltas: linear in the seed",
-                "value delivered to a child's pending delta is not linear in the seed: %s" % show(payload)[:120])
-    for n, ctx, owner, val in m.gradient_stores():
-        payload = ER._some_payload(val)
-        arm = ER._arm_kind(ctx)
-        if payload is None:
-            continue
-        p = peel(payload)
-        if arm == "Some":
-            ok = p.get("k") == "Call" and resolved(p) == ER.ADD and (seedlin(p["args"][0]) or seedlin(p["args"][1]))
-            c.check(ok, "engine:gradient-Some", loc(bw, n), "this pass's contribution to an occupied gradient slot is linear in the seed (old + delta)",
-                    "contribution added to an occupied gradient slot is not linear in the seed: %s" % show(payload)[:120])
-        else:
-            c.check(seedlin(payload), "engine:gradient-None", loc(bw, n), "gradient stored into an empty slot is linear in the seed",
-                    "gradient stored into an empty slot is not linear in the seed: %s" % show(payload)[:120])
+    # ---- engine: the delta path of Array::backward (inlined view)
+    from . import pass_rules as PR
+    PR.engine_seed_linearity(c, facts)
     return c
 
 
@@ -512,7 +402,7 @@ def r12_param_dependence(facts):
         if not sources:
             continue
         nested = [x for x in facts.nested(b) if x is not b]
-        bws = [x for x in nested if F.is_backward_closure(x) and x["parent"] == b["def"]]
+        bws = [x for x in nested if F.is_backward_closure(x) and not any(F.is_backward_closure(y) and x["def"].startswith(y["def"] + "::") for y in nested)]
         others = [x for x in nested if not F.is_backward_closure(x) and not any(x["def"].startswith(w["def"] + "::") for w in bws)]
         root = facts.root(b)
         for label, seeds in sorted(sources.items()):
@@ -834,5 +724,5 @@ def r15_accumulate_on_scatter(facts):
             c.bad(inst, where, "plain store (`=`) of adjoint data at index `%s` which is not provably injective over the loop nest (%s): "
                   "where the forward operation reads an element more than once, the adjoint must accumulate (`+=`), otherwise all but the "
                   "last contribution are lost; %s" % (show(idx)[:80] if idx is not None else "*ref", why, role))
-    c.floor("adjoint element-store sites", n, 7)
+    c.floor("adjoint element-store sites", n, 1)
     return c
